@@ -23,6 +23,8 @@ def tifa_analysis(code=None, report=MAIN_REPORT):
     if code is None:
         code = report.submission.main_code
     if code in report[TIFA_TOOL_NAME]['analyses']:
+        # Also the latest analysis that was asked for (see get_issues)
+        report[TIFA_TOOL_NAME]['latest'] = report[TIFA_TOOL_NAME]['analyses'][code]
         return report[TIFA_TOOL_NAME]['analyses'][code]
     result = report[TIFA_TOOL_NAME]['instance'].process_code(code)
     report[TIFA_TOOL_NAME]['analyses'][code] = result
